@@ -44,9 +44,25 @@ def sh(cmd, cwd=C.LEAN, timeout=3600):
     return p.returncode, p.stdout.decode(errors='replace')
 
 
+def prop_files(prop):
+    """BU/Properties/<prop>.lean and its continuation modules BU/Properties/<prop>_*.lean"""
+    d = os.path.join(C.LEAN, 'BU', 'Properties')
+    return [os.path.join(d, prop + '.lean')] + sorted(glob.glob(os.path.join(d, prop + '_*.lean')))
+
+
+def prop_modules(prop):
+    return ['BU.Properties.' + os.path.basename(f)[:-5] for f in prop_files(prop)]
+
+
 def theorems_of(prop):
-    """names of the property theorems (and T-ties) stated in BU/Properties/<prop>.lean"""
-    path = os.path.join(C.LEAN, 'BU', 'Properties', prop + '.lean')
+    """names of the property theorems (and T-ties) stated in BU/Properties/<prop>.lean (+ continuation modules)"""
+    names = []
+    for path in prop_files(prop):
+        names += theorems_in(path)
+    return names
+
+
+def theorems_in(path):
     src = strip_comments(open(path).read())
     names = []
     ns = []
@@ -80,7 +96,7 @@ def build(prop):
     rc, out = sh(['lake', 'build', 'budriver', 'BU.Driver.Core'])
     if rc != 0:
         return False, False, ['driver build'], out
-    rc, out = sh(['lake', 'build', f'BU.Properties.{prop}'])
+    rc, out = sh(['lake', 'build'] + prop_modules(prop))
     if rc == 0:
         return True, True, [], out
     broken = []
@@ -98,7 +114,7 @@ def build(prop):
 def audit(prop, names):
     """#print axioms for every property theorem; forbidden-token grep over the Lean sources"""
     path = os.path.join(C.LEAN, 'BU', 'Audit', prop + '.lean')
-    text = f'import BU.Properties.{prop}\n' + ''.join(f'#print axioms {n}\n' for n in names)
+    text = ''.join(f'import {m}\n' for m in prop_modules(prop)) + ''.join(f'#print axioms {n}\n' for n in names)
     os.makedirs(os.path.dirname(path), exist_ok=True)
     if not os.path.exists(path) or open(path).read() != text:
         open(path, 'w').write(text)
@@ -119,7 +135,7 @@ def audit(prop, names):
         if bad and not DEV:
             raise C.MachineryFault(f'axiom audit: {n} depends on {sorted(bad)}')
     hits = []
-    for f in sorted(lean_deps([f'BU/Properties/{prop}.lean', 'Main.lean', 'GenMain.lean'])):
+    for f in sorted(lean_deps([os.path.relpath(x, C.LEAN) for x in prop_files(prop)] + ['Main.lean', 'GenMain.lean'])):
         for m in FORBIDDEN.finditer(strip_comments(open(os.path.join(C.LEAN, f)).read())):
             hits.append(f'{f}: {m.group(0).strip()}')
     if hits and not DEV:
@@ -294,7 +310,7 @@ def main():
         if proofs_ok:
             axioms = audit(prop, names)
         if tier == 'thorough' and proofs_ok:
-            rc, out = sh(['lake', 'env', 'leanchecker', f'BU.Properties.{prop}'], timeout=3600)
+            rc, out = sh(['lake', 'env', 'leanchecker'] + prop_modules(prop), timeout=3600)
             if rc != 0:
                 raise C.MachineryFault('leanchecker rejected the property module:\n' + out[-2000:])
             ev['coverage']['leanchecker'] = 'ok'
